@@ -442,3 +442,46 @@ def replay_read_graph(o, model):
 def _has_source_and_sink(edges):
     nodes = {x for e in edges for x in e}
     return any(all(v != n for (_, v) in edges) for n in nodes) and any(all(u != n for (u, _) in edges) for n in nodes)
+
+
+def replay_expanded_constraints(kind):
+    """native replay for NodeExpandedDiGraph._get_expanded_subpath_constraints_nodes / _edges: the real class expands every pair of constraints
+    (paths of <= 3 nodes / <= 2 edges of a small node-weighted graph, plus one naming an absent element) and the result is compared with the contract."""
+    def run(o, model):
+        import itertools
+        import networkx as nx
+        from flowpaths.nodeexpandeddigraph import NodeExpandedDiGraph
+        G = nx.DiGraph()
+        for n in ("x", "y", "z", "w"):
+            G.add_node(n, flow=2)
+        G.add_edges_from([("x", "y"), ("y", "z"), ("x", "z"), ("z", "w")])
+        H = NodeExpandedDiGraph(G, node_flow_attr="flow")
+        if kind == "nodes":
+            pool = [["x"], ["x", "y"], ["x", "y", "z"], ["y", "z", "w"], ["x", "q"]]
+            want1 = lambda c: [(n + ".0", n + ".1") for n in c]
+            bad = lambda c: any(n not in G for n in c)
+            fn = H._get_expanded_subpath_constraints_nodes
+        else:
+            pool = [[("x", "y")], [("x", "y"), ("y", "z")], [("y", "z"), ("z", "w")], [("x", "z"), ("z", "w")], [("x", "w")]]
+            def want1(c):
+                out = []
+                for (u, v) in c:
+                    out += [(u + ".0", u + ".1"), (u + ".1", v + ".0")]
+                return out + [(c[-1][1] + ".0", c[-1][1] + ".1")]
+            bad = lambda c: any(not G.has_edge(*e) for e in c)
+            fn = H._get_expanded_subpath_constraints_edges
+        tried = 0
+        for cs in itertools.chain(([c] for c in pool), itertools.permutations(pool, 2)):
+            cs = [list(c) for c in cs]
+            tried += 1
+            try:
+                got = fn(cs)
+            except ValueError:
+                got = "ValueError"
+            except Exception as e:      # noqa
+                got = "raised %s" % type(e).__name__
+            want = "ValueError" if any(bad(c) for c in cs) else [want1(c) for c in cs]
+            if got != want:
+                return dict(ok=True, function=fn.__qualname__, constraints=cs, expected=want, observed=got)
+        return dict(ok=False, function=fn.__qualname__, tried=tried)
+    return run
